@@ -623,6 +623,9 @@ func (c *clipperBase) doSplitOp(outrec *OutRec, splitOp *OutPt) {
 		prevOp.next = newOp
 	}
 
+	if verifOn {
+		area2 = verifSplitArea(area1, area2)
+	}
 	if !(absArea2 > 1) || (!(absArea2 > absArea1) && (area2 > 0) != (area1 > 0)) {
 		return
 	}
